@@ -26,6 +26,7 @@ sub!(core, "core.rs");
 sub!(update, "update.rs");
 sub!(updrun, "updrun.rs");
 sub!(cmd, "cmd.rs");
+sub!(ucmd, "ucmd.rs");
 sub!(imports, "imports.rs");
 sub!(c15, "c15.rs");
 sub!(c16, "c16.rs");
@@ -347,10 +348,18 @@ fn run() {
                 updrun::run(&mut report, replay.as_deref());
                 report.rule = format!("{rule} + prune half: {}", report.rule);
             }
+            if prop == "C12" {
+                // the clean-ups of certify / trust / import prune the target's exemptions too
+                ucmd::run(&mut report);
+            }
         }
         "C09" | "C10" | "C11" | "C13" => {
             updrun::run(&mut report, replay.as_deref());
             cmd::run(&mut report);
+            if prop == "C10" || prop == "C11" {
+                // user commands (certify, trust, import, add-exemption, ...) with their clean-up
+                ucmd::run(&mut report);
+            }
             if prop == "C11" {
                 // registry histories: what gets recorded as an unpublished link
                 c08::run(&mut report);
